@@ -74,7 +74,7 @@ check('C14', 'Hypothesis-generated paragraphs from a tricky-token vocabulary, fi
 
 check('C11', 'bounded exhaustive operation histories + Hypothesis-drawn histories + hypothesis.stateful RuleBasedStateMachine, with fault injection at every token-list position; fresh-interpreter baseline as reference model',
       'enumeration-pool + hypothesis-sharded (stateful)',
-      'Histories over {use renderer, enter/render/exit, a documented refusal half-way through rendering, parse that raises inside a custom block/span token at every list position, bare '
+      'Histories over {use renderer, enter/render/exit, a documented refusal half-way through rendering, parse that raises inside a custom block/span token added by hand at every list position (inside renderers with and without token types of their own), bare '
       'parse, Scheme} are executed in-process; after every step the token lists must equal the defaults and a battery of 24 probe documents (ten of them put one string into every syntactic context that processes it, to expose state keyed by content) '
       '(HtmlRenderer output + dump of a bare parse) and the operation\'s own output must equal reference values, each computed in its own pristine process. '
       'All length-2 histories over the full alphabet and all length-4 (5 thorough) histories over 8 state-touching operations are enumerated.',
@@ -85,7 +85,7 @@ check('C16', 'complete pair table of synthetic custom span tokens (Allen relatio
       'enumeration-pool + hypothesis-sharded',
       'All 10400 configurations of two custom token types are parsed at top level and again inside the parse group of a third custom token, '
       'and checked against an outcome table derived from the statement (asserted in 6800 unambiguous cells) and against tiling / order / '
-      'containment / confinement invariants (context left normally and by an exception); a token with three-character delimiters is run against every span inside it (4500 cases: nest in the parse group, otherwise precedence); random sets of up to 4 '
+      'containment / confinement invariants (context left normally and by an exception); a token with three-character delimiters is run against every span inside it (4500 cases: nest in the parse group, otherwise precedence); a custom token whose only candidate starts at an escaped character is run against the built-in escape sequence (90 cases); random sets of up to 4 '
       'regex-based custom types over generated texts are checked against the invariants.',
       'Outcome is not asserted where the statement is silent (equal starts, container that does not parse inner). One recorded finding (match inside a closing delimiter) is excluded by its narrow class.',
       'DESIGN.md 5/C16')
@@ -101,7 +101,7 @@ check('C04', 'Hypothesis-generated texts; metamorphic relation between the parse
 check('C05', 'Hypothesis-generated pairs of texts; metamorphic relation AST(A + blank + B) = AST(A) ++ shifted AST(B)',
       'hypothesis-sharded',
       'For sampled pairs meeting the side conditions the own dump (all scalar attributes and line numbers) of the combined document must be '
-      'the concatenation of the separate dumps with B\'s line numbers shifted.',
+      'the concatenation of the separate dumps with B\'s line numbers shifted; some pairs share a line that is paragraph text in A and interrupts a paragraph in B.',
       'Sampling only; side conditions evaluated on the separate parses.',
       'DESIGN.md 5/C05')
 
@@ -118,7 +118,7 @@ check('C03', 'Hypothesis choice tapes decoded into model trees of CommonMark/GFM
 check('C13', 'Hypothesis choice tapes decoded into G4 documents whose writer records the source line of every block; parallel walk of model and token tree',
       'hypothesis-sharded',
       'The generator knows the 1-based line on which it wrote each block (through block-quote and list prefixes, lazy lines, blank-first '
-      'items, leading blank lines, definitions between blocks, table rows and cells); every block token of the parse must report exactly that line.',
+      'items, leading blank lines, definitions between blocks, table rows and cells); every block token of the parse must report exactly that line; under the Markdown renderer\'s token set the blank-line and definition-group tokens must sit on lines of that kind, in increasing order.',
       'Sampling only; structurally different parses are left to C03 and counted as skipped.',
       'DESIGN.md 5/C13')
 
